@@ -522,7 +522,23 @@ func sameValue(a, b ssa.Value) bool {
 		return true
 	}
 	oa, ob := Origins(a), Origins(b)
-	return len(oa) == 1 && len(ob) == 1 && oa[0] == ob[0]
+	if len(oa) != 1 || len(ob) != 1 {
+		return false
+	}
+	if oa[0] == ob[0] {
+		return true
+	}
+	// two loads of the same field of the same object
+	ua, oka := oa[0].(*ssa.UnOp)
+	ub, okb := ob[0].(*ssa.UnOp)
+	if oka && okb && ua.Op == token.MUL && ub.Op == token.MUL {
+		fa, ba := FieldOf(ua.X)
+		fb, bb := FieldOf(ub.X)
+		if fa != nil && fa == fb && ba != nil && bb != nil {
+			return ba == bb || sameValue(ba, bb)
+		}
+	}
+	return false
 }
 
 func c17FanOut(c *Check) {
